@@ -385,7 +385,8 @@ def main(tier=None, replay=None):
             for (li, dv2, bal2) in sel:
                 case = {"pu": c["pu"], "ps": c["ps"], "r2": r2, "dv2": dv2, "bal2": bal2,
                         "au": labels[li]["u"], "bs": labels[li]["s"]}
-                via_engine = (n_run % 7 == 0)
+                # through the engine + interface: every 7th run, and every other run whose ballistic tolerance exceeds the delta-v limit
+                via_engine = (n_run % 7 == 0) or (bal2 > dv2 and n_run % 2 == 0)
                 observations.append(run_case(bk, case, via_engine=via_engine))
                 cases.append({"kind": "run", "case": case, "via_engine": via_engine})
                 n_run += 1
